@@ -776,9 +776,23 @@ func (s *c15Sys) gen(r *vf.Rand) c15Case {
 		}
 
 		if r.Chance(55) {
+			// names that do occur in the query (as net/url sees them) are preferred
+			var present []string
+
+			vals, _ := url.ParseQuery(c.Query)
+			for k := range vals {
+				present = append(present, k)
+			}
+
+			sort.Strings(present)
+
 			n := r.Range(1, 3)
 			for i := 0; i < n; i++ {
-				rw.StripQ = append(rw.StripQ, vf.Pick(r, c15QStrip))
+				if len(present) > 0 && r.Chance(60) {
+					rw.StripQ = append(rw.StripQ, vf.Pick(r, present))
+				} else {
+					rw.StripQ = append(rw.StripQ, vf.Pick(r, c15QStrip))
+				}
 			}
 		}
 
@@ -908,7 +922,7 @@ func (s *c15Sys) gen(r *vf.Rand) c15Case {
 		c.Up = 1
 	}
 
-	if r.Chance(6) {
+	if r.Chance(3) {
 		c.Up = r.Intn(2)
 	}
 
